@@ -2,6 +2,8 @@ import CodeLimit.Props.C01marks
 import CodeLimit.Props.C01arrow
 import CodeLimit.Props.C01text
 import CodeLimit.Model.ProgMarkOps
+import CodeLimit.Props.C01pytext
+import CodeLimit.Lemmas.ProgTextMulti
 /-!
 # C01 + C04 + C17, stage T: forests WITH comments and markers, down to source TEXT and `_analyze_file`
 
@@ -25,6 +27,14 @@ stream `harness/mark_stream.py` runs against the real code.
 * MT3 `analyze_of_marked_canon_text` (C, C++, C#), `analyze_java_…`, `analyze_js_…`, `analyze_ts_…`,
   `analyze_js_arrow_…`, `analyze_ts_arrow_…` - `_analyze_file` on the TEXT returns `markedReport`
   (`markedReportFlat` for C) and its total;
+* MT3' `fragJsArrow`, `fragTsArrow`; `reported_functions_canon_js_arrow`, `toggle_marker_canon_js_arrow`,
+  `comments_blank_lines_invisible_canon_js_arrow` (and `…_ts_arrow`) - C17 / C04 for forests with
+  assigned arrow functions, no matcher hypothesis; `analyze_of_marked_fragment_text`,
+  `analyze_reported_functions_fragment`, `analyze_toggle_marker_fragment`,
+  `analyze_comments_blank_lines_invisible_fragment` - M2 / C17 / C04 at TEXT level
+  (`_analyze_file` on `textOf p`) for every canonical fragment; `analyze_of_fragment_tree_text`,
+  `analyze_of_canon_tree_text` - the text-level theorem for comment-free forests without discovery
+  hypothesis;
 * MT4 `markOp_sound` - if the five flags of the `marktree` reply are true, `_analyze_file` of the
   model applied to the returned text and raw stream returns the returned report (which was read off
   the tree; `scanFile` is not evaluated by the operation);
@@ -167,6 +177,226 @@ theorem analyze_ts_arrow_of_marked_canon_text {p : Prog PTok}
     (ha : p.bare.stripComments.noAdj = true) (hs : p.Spaced = true) (hn : p.noWs = true) :
     analyze Gen.typescript (textOf p) (rawOf p) = .ok (markedReport p, totalOf (markedReport p)) :=
   analyze_of_scan hs hn (scan_ts_arrow_of_rendered_marked_canon_tree hc hw ha)
+
+/-! ## MT3': every fragment at once, and C04 / C17 at TEXT level
+
+`C01marks.Fragment` packages a canonical fragment with its discovery theorem.  The arrow fragments
+are instances, too; with them the corollaries of `Props/C01marks.lean` (M5) hold for JavaScript /
+TypeScript forests with assigned arrow functions, and all of them go down to `_analyze_file` on
+the source text. -/
+
+/-- JavaScript WITH assigned arrow functions: `Prog.CanonJsArrow` -/
+def fragJsArrow : Fragment Gen.javascript :=
+  ⟨Prog.CanonJsArrow, rfl, canonJsArrow_sim, discovers_of_canon_js_arrow⟩
+
+/-- TypeScript WITH assigned arrow functions: `Prog.CanonTsArrow` -/
+def fragTsArrow : Fragment Gen.typescript :=
+  ⟨Prog.CanonTsArrow, rfl, canonTsArrow_sim, discovers_of_canon_ts_arrow⟩
+
+theorem fragJsArrow_holds : fragJsArrow.holds = Prog.CanonJsArrow := rfl
+theorem fragTsArrow_holds : fragTsArrow.holds = Prog.CanonTsArrow := rfl
+
+/-- **C17 "omitted exactly when" on the output, JavaScript with assigned arrow functions** -/
+theorem reported_functions_canon_js_arrow {p : Prog PTok}
+    (hc : p.bare.stripComments.CanonJsArrow = true) (hw : p.bare.stripComments.wfCore = true)
+    (ha : p.bare.stripComments.noAdj = true) :
+    scanFile Gen.javascript (render p) = .ok ((treeReportNamed p.located.effective).map (·.2)) ∧
+    (treeReportNamed p.located.effective).map (·.1)
+      = p.located.stripComments.nameToks.filter
+          (fun t => !(markedLines p.located).contains t.line) ∧
+    ∀ x ∈ treeReportNamed p.located.effective, x.2.name = x.1.val :=
+  reported_functions_fragment fragJsArrow hc hw ha
+
+/-- ... TypeScript with assigned arrow functions -/
+theorem reported_functions_canon_ts_arrow {p : Prog PTok}
+    (hc : p.bare.stripComments.CanonTsArrow = true) (hw : p.bare.stripComments.wfCore = true)
+    (ha : p.bare.stripComments.noAdj = true) :
+    scanFile Gen.typescript (render p) = .ok ((treeReportNamed p.located.effective).map (·.2)) ∧
+    (treeReportNamed p.located.effective).map (·.1)
+      = p.located.stripComments.nameToks.filter
+          (fun t => !(markedLines p.located).contains t.line) ∧
+    ∀ x ∈ treeReportNamed p.located.effective, x.2.name = x.1.val :=
+  reported_functions_fragment fragTsArrow hc hw ha
+
+/-- **C17 toggle, JavaScript with assigned arrow functions** (no hypothesis about the matcher) -/
+theorem toggle_marker_canon_js_arrow {p p' : Prog PTok} {l : Nat}
+    (hc : p.bare.stripComments.CanonJsArrow = true) (hw : p.bare.stripComments.wfCore = true)
+    (ha : p.bare.stripComments.noAdj = true)
+    (hcode : p'.located.stripComments = p.located.stripComments)
+    (hmark : ∀ x, x ∈ markedLines p'.located ↔ x ∈ markedLines p.located ∨ x = l)
+    (hind : p.located.effective.notNestedOn l = true) :
+    scanFile Gen.javascript (render p) = .ok ((treeReportNamed p.located.effective).map (·.2)) ∧
+    scanFile Gen.javascript (render p') = .ok (((treeReportNamed p.located.effective).filter
+      (fun x => decide (x.1.line ≠ l))).map (·.2)) :=
+  toggle_marker_fragment fragJsArrow hc hw ha hcode hmark hind
+
+/-- **C17 toggle, TypeScript with assigned arrow functions** -/
+theorem toggle_marker_canon_ts_arrow {p p' : Prog PTok} {l : Nat}
+    (hc : p.bare.stripComments.CanonTsArrow = true) (hw : p.bare.stripComments.wfCore = true)
+    (ha : p.bare.stripComments.noAdj = true)
+    (hcode : p'.located.stripComments = p.located.stripComments)
+    (hmark : ∀ x, x ∈ markedLines p'.located ↔ x ∈ markedLines p.located ∨ x = l)
+    (hind : p.located.effective.notNestedOn l = true) :
+    scanFile Gen.typescript (render p) = .ok ((treeReportNamed p.located.effective).map (·.2)) ∧
+    scanFile Gen.typescript (render p') = .ok (((treeReportNamed p.located.effective).filter
+      (fun x => decide (x.1.line ≠ l))).map (·.2)) :=
+  toggle_marker_fragment fragTsArrow hc hw ha hcode hmark hind
+
+/-- **C04, JavaScript with assigned arrow functions** (no hypothesis about the matcher) -/
+theorem comments_blank_lines_invisible_canon_js_arrow {p p' : Prog PTok} {φ : Nat → Nat}
+    (hc : p.bare.stripComments.CanonJsArrow = true)
+    (hw : p.bare.stripComments.wfCore = true) (ha : p.bare.stripComments.noAdj = true)
+    (hmove : p.located.stripComments.movedTo φ p'.located.stripComments = true)
+    (hφ : MonoOn φ (p.located.stripComments.flat.map (·.line)))
+    (hmark : ∀ t ∈ p.located.stripComments.nameToks,
+      (markedLines p'.located).contains (φ t.line) = (markedLines p.located).contains t.line) :
+    scanFile Gen.javascript (render p) = .ok (markedReport p) ∧
+    scanFile Gen.javascript (render p') = .ok (markedReport p') ∧
+    Forall2 (Measurement.movedBy φ) (markedReport p) (markedReport p') :=
+  comments_blank_lines_invisible_fragment fragJsArrow hc hw ha hmove hφ hmark
+
+/-- **C04, TypeScript with assigned arrow functions** -/
+theorem comments_blank_lines_invisible_canon_ts_arrow {p p' : Prog PTok} {φ : Nat → Nat}
+    (hc : p.bare.stripComments.CanonTsArrow = true)
+    (hw : p.bare.stripComments.wfCore = true) (ha : p.bare.stripComments.noAdj = true)
+    (hmove : p.located.stripComments.movedTo φ p'.located.stripComments = true)
+    (hφ : MonoOn φ (p.located.stripComments.flat.map (·.line)))
+    (hmark : ∀ t ∈ p.located.stripComments.nameToks,
+      (markedLines p'.located).contains (φ t.line) = (markedLines p.located).contains t.line) :
+    scanFile Gen.typescript (render p) = .ok (markedReport p) ∧
+    scanFile Gen.typescript (render p') = .ok (markedReport p') ∧
+    Forall2 (Measurement.movedBy φ) (markedReport p) (markedReport p') :=
+  comments_blank_lines_invisible_fragment fragTsArrow hc hw ha hmove hφ hmark
+
+/-- **MT3 for every fragment** (`fragC hL`, `fragJava`, `fragJs`, `fragTs`, `fragJsArrow`,
+`fragTsArrow`): `_analyze_file` on the source text of a forest with comments and markers returns
+`markedReport` (`markedReportFlat` for C) and its total. -/
+theorem analyze_of_marked_fragment_text {L : Language} (F : Fragment L) {p : Prog PTok}
+    (hc : F.holds p.bare.stripComments = true) (hw : p.bare.stripComments.wfCore = true)
+    (ha : p.bare.stripComments.noAdj = true) (hs : p.Spaced = true) (hn : p.noWs = true) :
+    analyze L (textOf p) (rawOf p) = .ok (markedReportOf L p, totalOf (markedReportOf L p)) :=
+  analyze_of_scan hs hn (scan_of_rendered_marked_fragment F hc hw ha)
+
+/-- **The TEXT-level theorem for a comment-free forest, without discovery hypothesis** (what
+`C01text.analyze_of_tree_text_partial` states under the hypotheses `hh` / `hperm`): for a forest of
+code tokens in a canonical fragment, structurally well-formed, no function directly followed by a
+brace group, layout `Spaced`: `_analyze_file` on the source text returns the tree report and the
+sum of its lengths. -/
+theorem analyze_of_fragment_tree_text {L : Language} (F : Fragment L) {p : Prog PTok}
+    (hc : F.holds p.bare = true) (hw : p.bare.wfCore = true) (ha : p.noAdj = true)
+    (hcode : p.bare.allCode = true) (hs : p.Spaced = true) :
+    analyze L (textOf p) (rawOf p) = .ok (TreeOps.reportOf L p, totalOf (TreeOps.reportOf L p)) := by
+  have hw' : p.located.wfCore = true := by rw [Prog.located, wfCore_locate]; exact hw
+  have ha' : p.located.noAdj = true := by rw [Prog.located, noAdj_locate]; exact ha
+  have hc' : F.holds p.located = true := (F.sim (sim_locate p (1, 0))).trans hc
+  obtain ⟨hs', hh, hperm⟩ := F.discovers hc' hw' ha'
+  exact analyze_of_tree_text_partial F.brace hw ha hcode hs hh hperm
+
+/-- the same for C, C++, C# in the words of `Canon` -/
+theorem analyze_of_canon_tree_text {L : Language} (hL : L ∈ cFamily) {p : Prog PTok}
+    (hc : p.bare.Canon = true) (hw : p.bare.wfCore = true) (ha : p.noAdj = true)
+    (hcode : p.bare.allCode = true) (hs : p.Spaced = true) :
+    analyze L (textOf p) (rawOf p) = .ok (TreeOps.reportOf L p, totalOf (TreeOps.reportOf L p)) :=
+  analyze_of_fragment_tree_text (fragC hL) hc hw ha hcode hs
+
+/-- **C17 "omitted exactly when" at TEXT level, every fragment**: `_analyze_file` on the source text
+succeeds; its entries correspond one to one, in order, to the expected function nodes
+(`expectedNames`) and carry their names. -/
+theorem analyze_reported_functions_fragment {L : Language} (F : Fragment L) {p : Prog PTok}
+    (hc : F.holds p.bare.stripComments = true) (hw : p.bare.stripComments.wfCore = true)
+    (ha : p.bare.stripComments.noAdj = true) (hs : p.Spaced = true) (hn : p.noWs = true) :
+    analyze L (textOf p) (rawOf p)
+      = .ok ((langReportNamed L p.located.effective).map (·.2),
+             totalOf ((langReportNamed L p.located.effective).map (·.2))) ∧
+    (langReportNamed L p.located.effective).map (·.1) = expectedNames L p.located ∧
+    ∀ x ∈ langReportNamed L p.located.effective, x.2.name = x.1.val := by
+  obtain ⟨h1, h2, h3⟩ := reported_functions_fragment F hc hw ha
+  exact ⟨analyze_of_scan hs hn h1, h2, h3⟩
+
+/-- **C17 toggle at TEXT level, every fragment**: the two source texts differ by a marker comment on
+line `l` that does not move the code; `_analyze_file` on the second text returns the report of the
+first without the entries of the functions named on line `l`. -/
+theorem analyze_toggle_marker_fragment {L : Language} (F : Fragment L) {p p' : Prog PTok} {l : Nat}
+    (hc : F.holds p.bare.stripComments = true) (hw : p.bare.stripComments.wfCore = true)
+    (ha : p.bare.stripComments.noAdj = true)
+    (hs : p.Spaced = true) (hn : p.noWs = true) (hs' : p'.Spaced = true) (hn' : p'.noWs = true)
+    (hcode : p'.located.stripComments = p.located.stripComments)
+    (hmark : ∀ x, x ∈ markedLines p'.located ↔ x ∈ markedLines p.located ∨ x = l)
+    (hind : toggleOK L l p.located.effective = true) :
+    analyze L (textOf p) (rawOf p)
+      = .ok ((langReportNamed L p.located.effective).map (·.2),
+             totalOf ((langReportNamed L p.located.effective).map (·.2))) ∧
+    analyze L (textOf p') (rawOf p')
+      = .ok (((langReportNamed L p.located.effective).filter
+                (fun x => decide (x.1.line ≠ l))).map (·.2),
+             totalOf (((langReportNamed L p.located.effective).filter
+                (fun x => decide (x.1.line ≠ l))).map (·.2))) := by
+  obtain ⟨h1, h2⟩ := toggle_marker_fragment F hc hw ha hcode hmark hind
+  exact ⟨analyze_of_scan hs hn h1, analyze_of_scan hs' hn' h2⟩
+
+/-- **C04 at TEXT level, every fragment**: two source texts whose comment-free forests have the same
+shape, kinds and texts, the lines related by `φ` (comments, whitespace and blank lines inserted or
+deleted anywhere, no marker inserted on / deleted from a name line).  `_analyze_file` succeeds on
+both, and the reports correspond entry by entry: same names and lengths, lines mapped by `φ`. -/
+theorem analyze_comments_blank_lines_invisible_fragment {L : Language} (F : Fragment L)
+    {p p' : Prog PTok} {φ : Nat → Nat} (hc : F.holds p.bare.stripComments = true)
+    (hw : p.bare.stripComments.wfCore = true) (ha : p.bare.stripComments.noAdj = true)
+    (hs : p.Spaced = true) (hn : p.noWs = true) (hs' : p'.Spaced = true) (hn' : p'.noWs = true)
+    (hmove : p.located.stripComments.movedTo φ p'.located.stripComments = true)
+    (hφ : MonoOn φ (p.located.stripComments.flat.map (·.line)))
+    (hmark : ∀ t ∈ p.located.stripComments.nameToks,
+      (markedLines p'.located).contains (φ t.line) = (markedLines p.located).contains t.line) :
+    analyze L (textOf p) (rawOf p) = .ok (markedReportOf L p, totalOf (markedReportOf L p)) ∧
+    analyze L (textOf p') (rawOf p') = .ok (markedReportOf L p', totalOf (markedReportOf L p')) ∧
+    Forall2 (Measurement.movedBy φ) (markedReportOf L p) (markedReportOf L p') := by
+  obtain ⟨h1, h2, h3⟩ := comments_blank_lines_invisible_fragment F hc hw ha hmove hφ hmark
+  exact ⟨analyze_of_scan hs hn h1, analyze_of_scan hs' hn' h2, h3⟩
+
+/-! ## MT3'': block comments and literals over SEVERAL LINES at text level
+
+`Prog.Spaced` (`Model/ProgText.lean`) excludes token texts with line breaks, so a block comment
+`/* … ⏎ … */` was covered at token level only.  `mlTextOf` / `mlRawOf` / `Prog.SpacedML`
+(`Lemmas/ProgTextMulti.lean`, the text model of the Python trees applied to the token sequence of a
+brace forest) have no such restriction; without line breaks inside tokens they ARE `textOf` /
+`rawOf` (`ml_text_is_text`). -/
+
+/-- the raw stream tiles the text (the lexer contract of C16) -/
+theorem rawOk_mltext (p : Prog PTok) : RawOk (mlTextOf p) (mlRawOf p) :=
+  C01pytext.rawOk_pytoks _
+
+/-- `noWs` of the forest is `noWs` of the shifted token list -/
+theorem noWs_incFirst {p : Prog PTok} (hn : p.noWs = true) :
+    (incFirst p.flat).all (fun x => !x.bare.isWhitespace) = true := by
+  unfold Prog.noWs at hn
+  cases h : p.flat with
+  | nil => rfl
+  | cons a as =>
+    rw [h] at hn
+    simpa [incFirst, PTok.bare] using hn
+
+/-- **`lex` on the text of a forest with multi-line tokens returns the rendering**: every token of
+the forest, block comments over several lines included, with kind, type, text, line and column. -/
+theorem lex_of_marked_tree_mltext {p : Prog PTok} (hs : p.SpacedML = true) (hn : p.noWs = true) :
+    lex (mlTextOf p) (mlRawOf p) false = render p := by
+  rw [render_eq, ← place_incFirst]
+  exact C01pytext.lex_of_pytoks_text hs (noWs_incFirst hn)
+
+/-- without line breaks inside token texts nothing changes: `mlTextOf` / `mlRawOf` are `textOf` /
+`rawOf` -/
+theorem ml_text_is_text {p : Prog PTok} (hl : ∀ t ∈ p.flat, 10 ∉ t.val) :
+    mlTextOf p = textOf p ∧ mlRawOf p = rawOf p :=
+  mlTextOf_eq_textOf hl
+
+/-- **MT3 for every fragment, token texts over several lines allowed**: `_analyze_file` on the source
+text of a forest with comments (block comments over several lines included) and markers returns
+`markedReport` (`markedReportFlat` for C) and its total. -/
+theorem analyze_of_marked_fragment_mltext {L : Language} (F : Fragment L) {p : Prog PTok}
+    (hc : F.holds p.bare.stripComments = true) (hw : p.bare.stripComments.wfCore = true)
+    (ha : p.bare.stripComments.noAdj = true) (hs : p.SpacedML = true) (hn : p.noWs = true) :
+    analyze L (mlTextOf p) (mlRawOf p) = .ok (markedReportOf L p, totalOf (markedReportOf L p)) := by
+  unfold analyze
+  rw [lex_of_marked_tree_mltext hs hn, scan_of_rendered_marked_fragment F hc hw ha]
+  rfl
 
 /-! ## MT4: the driver operation -/
 
@@ -445,6 +675,130 @@ theorem jsMarks_analyze :
 theorem jsMarks_scan_eval : scanFile Gen.javascript (lex (textOf jsMarks) (rawOf jsMarks) false)
     = .ok [⟨[97], 1, 1, 6, 2, 5⟩, ⟨[103], 2, 3, 2, 25, 1⟩] :=
   scanFile_eval (by decide +kernel)
+
+/-! ### MT3' on the examples -/
+
+/-- the comment-free text-level theorem on `cppTree` (the file of `Props/C01tree.lean`): no
+discovery hypothesis; the conclusion is the one `C01text.Ex.cpp_analyze` obtained from the kernel
+evaluation of `extract_headers` -/
+example : analyze Gen.cpp (textOf cppTree) (rawOf cppTree)
+    = .ok ([⟨[109, 49], 3, 3, 3, 17, 1⟩, ⟨[109, 50], 4, 3, 4, 31, 1⟩, ⟨[102], 6, 1, 13, 2, 4⟩,
+            ⟨[103], 7, 3, 10, 4, 3⟩, ⟨[104], 8, 5, 8, 18, 1⟩, ⟨[107], 12, 3, 12, 16, 1⟩], 11) := by
+  rw [analyze_of_canon_tree_text (L := Gen.cpp) (by simp [cFamily]) C01full.Ex.cppTree_canon
+    cpp_wf.1 cpp_wf.2.1 cpp_wf.2.2 cpp_spaced]
+  have : TreeOps.reportOf Gen.cpp cppTree = treeReport cppTree.located := rfl
+  rw [this, cpp_treeReport]; rfl
+
+/-- `cMarks` without its first line (the marker comment that names nothing): every code line moves
+up by one -/
+def cMoved : Prog PTok :=
+  match cMarks with
+  | .leaf _ (.leaf t rest) => .leaf { t with nl := 0 } rest
+  | q => q
+
+/-- the hypotheses of the text-level C04 theorem for `cMarks` -> `cMoved` with `φ l = l - 1` -/
+theorem cMoved_hyps : cMoved.Spaced = true ∧ cMoved.noWs = true ∧
+    cMarks.located.stripComments.movedTo (· - 1) cMoved.located.stripComments = true ∧
+    MonoOn (· - 1) (cMarks.located.stripComments.flat.map (·.line)) ∧
+    (∀ t ∈ cMarks.located.stripComments.nameToks,
+      (markedLines cMoved.located).contains (t.line - 1)
+        = (markedLines cMarks.located).contains t.line) ∧
+    markedLines cMoved.located = [3, 10] := by decide +kernel
+
+/-- **C04 at text level on the example** (C++): both analyses, and the entry-by-entry
+correspondence; the report of the shorter file has the same names and lengths, one line up -/
+theorem cMoved_analyze :
+    analyze Gen.cpp (textOf cMoved) (rawOf cMoved)
+      = .ok ([⟨[102], 1, 5, 9, 2, 7⟩, ⟨[110], 7, 3, 7, 16, 1⟩, ⟨[107], 11, 3, 13, 4, 3⟩,
+              ⟨[104], 15, 1, 15, 14, 1⟩], 12) ∧
+    Forall2 (Measurement.movedBy (· - 1)) (markedReportOf Gen.cpp cMarks)
+      (markedReportOf Gen.cpp cMoved) := by
+  have hg := (markOp_flags_iff .cfam Gen.cpp cMarks).1 cMarks_good.1
+  have hc : (fragC (L := Gen.cpp) (by simp [cFamily])).holds cMarks.bare.stripComments = true := by
+    have := hg.1
+    simp only [MarkOps.Frag.holds, MarkOps.Frag.plain, MarkOps.Frag.arrow, Bool.or_false] at this
+    exact this
+  obtain ⟨_, h2, h3⟩ := analyze_comments_blank_lines_invisible_fragment
+    (fragC (L := Gen.cpp) (by simp [cFamily])) hc hg.2.1 hg.2.2.1 hg.2.2.2.1 hg.2.2.2.2
+    cMoved_hyps.1 cMoved_hyps.2.1 cMoved_hyps.2.2.1 cMoved_hyps.2.2.2.1 cMoved_hyps.2.2.2.2.1
+  refine ⟨h2.trans ?_, h3⟩
+  decide +kernel
+
+/-- `jsMarks` with an ordinary comment of the same width instead of the marker in front of `c` -/
+def jsUnmarked : Prog PTok :=
+  match jsMarks with
+  | .fn h k g op cl b (.leaf t rest) => .fn h k g op cl b (.leaf { t with val := cp "/* note */" } rest)
+  | q => q
+
+/-- the hypotheses of the arrow toggle theorem for line 7 (`c` is not nested) -/
+theorem jsUnmarked_hyps :
+    jsUnmarked.bare.stripComments.CanonJsArrow = true ∧
+    jsUnmarked.bare.stripComments.wfCore = true ∧ jsUnmarked.bare.stripComments.noAdj = true ∧
+    jsUnmarked.Spaced = true ∧ jsUnmarked.noWs = true ∧ jsMarks.Spaced = true ∧ jsMarks.noWs = true ∧
+    jsMarks.located.stripComments.sameUpTo (fun a b => a == b)
+      jsUnmarked.located.stripComments = true ∧
+    markedLines jsUnmarked.located = [3] ∧
+    jsUnmarked.located.effective.notNestedOn 7 = true := by decide +kernel
+
+/-- **C17 toggle at text level, assigned arrow functions**: the text with the ordinary comment
+reports `a`, `g` and `c`; the text with the marker `/* nocl */` in front of `c` reports the same
+without the entry of `c` -/
+theorem jsUnmarked_toggle :
+    analyze Gen.javascript (textOf jsUnmarked) (rawOf jsUnmarked)
+      = .ok ([⟨[97], 1, 1, 6, 2, 5⟩, ⟨[103], 2, 3, 2, 25, 1⟩, ⟨[99], 7, 12, 7, 30, 1⟩], 7) ∧
+    analyze Gen.javascript (textOf jsMarks) (rawOf jsMarks)
+      = .ok ([⟨[97], 1, 1, 6, 2, 5⟩, ⟨[103], 2, 3, 2, 25, 1⟩], 6) := by
+  have h := analyze_toggle_marker_fragment fragJsArrow (p := jsUnmarked) (p' := jsMarks) (l := 7)
+    jsUnmarked_hyps.1 jsUnmarked_hyps.2.1 jsUnmarked_hyps.2.2.1 jsUnmarked_hyps.2.2.2.1
+    jsUnmarked_hyps.2.2.2.2.1 jsUnmarked_hyps.2.2.2.2.2.1 jsUnmarked_hyps.2.2.2.2.2.2.1
+    (eq_of_sameUpTo_beq jsUnmarked_hyps.2.2.2.2.2.2.2.1)
+    (by
+      intro x
+      rw [jsMarks_lines, jsUnmarked_hyps.2.2.2.2.2.2.2.2.1]
+      simp only [List.mem_cons, List.not_mem_nil, or_false])
+    jsUnmarked_hyps.2.2.2.2.2.2.2.2.2
+  refine ⟨h.1.trans ?_, h.2.trans ?_⟩ <;> decide +kernel
+
+/-- ... in agreement with the kernel evaluation of `scan_file` on the lexed text -/
+example : scanFile Gen.javascript (lex (textOf jsUnmarked) (rawOf jsUnmarked) false)
+    = .ok [⟨[97], 1, 1, 6, 2, 5⟩, ⟨[103], 2, 3, 2, 25, 1⟩, ⟨[99], 7, 12, 7, 30, 1⟩] :=
+  scanFile_eval (by decide +kernel)
+
+/-- the C / C++ file
+```
+1  f ( ) { /* a
+2     b */ x ;
+3    g ( ) { y ; }   // nocl
+4  }
+```
+with a block comment over two lines as ONE token (the next token `x` stands on the comment's LAST
+line, behind it) -/
+def mlMarks : Prog PTok :=
+  .fn (.toks [pt 2 (cp "f") 0 0, pt 3 (cp "(") 0 1, pt 3 (cp ")") 0 1] .nil) 0 []
+      (pt 3 (cp "{") 0 1) (pt 3 (cp "}") 1 0)
+      (.toks [pt 5 (cp "/* a\n   b */") 0 1, pt 2 (cp "x") 1 8, pt 3 (cp ";") 0 1] <|
+       .fn (.toks [pt 2 (cp "g") 1 2, pt 3 (cp "(") 0 1, pt 3 (cp ")") 0 1] .nil) 0 []
+          (pt 3 (cp "{") 0 1) (pt 3 (cp "}") 0 1)
+          (.toks [pt 2 (cp "y") 0 1, pt 3 (cp ";") 0 1] .nil) <|
+       .toks [pt 5 (cp "// nocl") 0 3] .nil) <|
+  .nil
+
+/-- the text is the file shown; the forest is outside `Spaced` (a token text with a line break) and
+inside `SpacedML`; `_analyze_file` returns `f` with its 4 code lines (the marked `g` is
+suppressed, its line counts for `f`) - by the theorem, and by kernel evaluation of the model on the
+lexed text -/
+theorem mlMarks_analyze :
+    mlTextOf mlMarks = cp "f ( ) { /* a\n   b */ x ;\n  g ( ) { y ; }   // nocl\n}\n" ∧
+    mlMarks.Spaced = false ∧ mlMarks.SpacedML = true ∧
+    analyze Gen.cpp (mlTextOf mlMarks) (mlRawOf mlMarks) = .ok ([⟨[102], 1, 1, 4, 2, 4⟩], 4) ∧
+    scanFile Gen.cpp (lex (mlTextOf mlMarks) (mlRawOf mlMarks) false)
+      = .ok [⟨[102], 1, 1, 4, 2, 4⟩] := by
+  refine ⟨by decide +kernel, by decide +kernel, by decide +kernel, ?_,
+    scanFile_eval (by decide +kernel)⟩
+  rw [analyze_of_marked_fragment_mltext (fragC (L := Gen.cpp) (by simp [cFamily]))
+    (by decide +kernel) (by decide +kernel) (by decide +kernel) (by decide +kernel)
+    (by decide +kernel)]
+  decide +kernel
 
 /-- the two layout flags are needed for MT2 (`C01text.spaced_needed`, `C01text.noWs_needed`: forests on
 which `lex` does not return the rendering) -/
